@@ -79,6 +79,9 @@ func TestVerifReplayC16(t *testing.T) {
 			continue
 		}
 		lines := strings.Split(strings.Join(op.Literals, "\n"), "\n") // what the runtime reads back from the text file
+		if len(op.Literals) == 0 {
+			lines = nil // an empty text file has one (empty) line that no WriteString call asks for
+		}
 		if len(lines) != len(op.Literals) {
 			report("literals", fmt.Sprintf("template %s: %d literals become %d lines of the development text file (a literal contains a raw line feed)", n, len(op.Literals), len(lines)))
 			continue
